@@ -244,3 +244,10 @@ func (s *Store) Has(key uint) bool {
 	_, ok := s.m[key]
 	return ok
 }
+
+// ClearParks removes armed parks.
+func (s *Store) ClearParks() {
+	s.w.mu.Lock()
+	s.parkNext = map[byte]int{}
+	s.w.mu.Unlock()
+}
